@@ -48,6 +48,9 @@ def run(ctx):
     units = pp.units_product(ctx.tier)
     ctx.bounds['units'] = len(units)
     ctx.product_run('units', 'checks.c02:run_case', units, chunksize=1)
+    options = pp.options_product(ctx.tier)
+    ctx.bounds['options'] = len(options)
+    ctx.product_run('options', 'checks.c02:run_case', options, chunksize=1)
     ctx.product_run('shape', 'checks.c02:run_case', shape, chunksize=1)
     ctx.product_run('default-dtscale', 'checks.c02:run_case', dflt, chunksize=1)
     real = pp.real_product(ctx.tier)
